@@ -11,7 +11,7 @@ from mc.engine import Harness, Result, V
 from mc.world import reset_globals
 
 PRE = [['set', 'v', 5], ['mut_l'], ['pattr', 'v', 'bounds', [0, 50]], ['attach'], ['attach_set', 7], ['watch'], ['watch2prec'], ['extra'],
-       ['update', 3, 4], ['selobj'], ['touch'], ['watch_unwatch'], ['slot_none']]
+       ['update', 3, 4], ['selobj'], ['touch'], ['watch_unwatch'], ['slot_none'], ['watch_vw']]
 POST = [['set', 'v', 6], ['update', 7, 8], ['mut_l'], ['set_l'], ['pattr', 'v', 'bounds', [0, 99]], ['leaf', 9], ['oselobj'], ['extra'], ['selobj'], ['set', 'v', 60], ['attach'], ['set', 'w', 9]]
 
 
@@ -96,6 +96,8 @@ class C17(Harness):
                 o.sub.tags.append('p')
         elif k == 'watch':
             o.param.watch(o.user_cb, ['v'])
+        elif k == 'watch_vw':
+            o.param.watch(o.user_cb3, ['v', 'w'])          # one user watcher on two parameters
         elif k == 'watch2prec':
             o.param.watch(o.user_cb2, ['v'], precedence=2)
             o.param.watch(o.user_cb, ['v'], precedence=1)
@@ -231,8 +233,15 @@ class C17(Harness):
                 vs.append(V('dependent-method-count', '%s: %r on %s invoked dependent methods %r, expected exactly %d call(s)' % (ctx, op, side, dep, exp),
                             op=op[0], got=len(dep), **key))
                 break
+            # a user watcher on two parameters stays one watcher on the copy: one call per operation, with an event per changed parameter
+            if ['watch_vw'] in [list(p) for p in case['pre']] and op[0] in ('set', 'update') and exc is None:
+                got3 = [x for x in new if x[0] == 'user_cb3']
+                want3 = [('user_cb3', tuple(sorted(n for n, a, b in (('v', S.v, vw_before[0]), ('w', S.w, vw_before[1])) if a != b)))] if (S.v, S.w) != vw_before else []
+                if got3 != want3:
+                    vs.append(V('user-watchers', '%s: %r on %s: the two-parameter user watcher was called %r, expected %r' % (ctx, op, side, got3, want3), op=op[0], multi=True, **key))
+                    break
             # user watchers: bound to this side, in precedence order
-            users = [x[0] for x in new if x[0].startswith('user_cb')]
+            users = [x[0] for x in new if x[0].startswith('user_cb') and x[0] != 'user_cb3']
             if op[0] == 'set' and exc is None and S.v != vw_before[0]:
                 want = []
                 flat = [tuple(p) for p in case['pre']]
